@@ -89,7 +89,7 @@ PROPS = {
                 "{0,1,16,255,8191,8192,8193,16384,16385,32768,...} x declared/undeclared x threshold x version x HEAD x TE x piece "
                 "shapes, plus structured random responses; a case is non-trivial when the C04 predicate applies (well-formed "
                 "headers, correct declared length, no upgrade); distinct = distinct (branch tags, size bucket)",
-        "required_tags": ["coding:chunked", "coding:identity", "head:1", "status:1xx", "status:204", "status:304", "len:unknown", "ver:1.0"],
+        "required_tags": ["coding:chunked", "coding:identity", "head:1", "status:1xx", "status:204", "status:304", "len:unknown", "ver:1.0", "prefail:1"],
         "partial": [],
         "assumptions": ["statuses outside 100..999 produce a status line a strict 3DIGIT client rejects; the lenient client parser of the model accepts any decimal status"],
     },
@@ -115,13 +115,13 @@ PROPS = {
         "assumptions": [],
     },
     "C02": {
-        "batches": lambda tier: conn_batches([("c02", 400), ("mixed", 150)], [("c02", 6000), ("mixed", 2000)])(tier)
+        "batches": lambda tier: conn_batches([("c02", 400), ("mixed", 150), ("long", 3)], [("c02", 6000), ("mixed", 2000), ("long", 9)])(tier)
                    + ctl_batches("vanishdata", 60, 1500, per=60)(tier),
         "replay_bin": "pristine", "need": ["heads", "seq", "addr", "nohang"], "agr_need": ["heads", "seq"],
         "rule": "grammar-directed request heads (nine methods + extension tokens incl. lower-case, visible-ASCII targets, 1.0/1.1, 0..64 headers with duplicates, "
                 "empty values, colons and inner whitespace, lines > 1 KiB, heads > 64 KiB, random OWS) sent over loopback TCP and UNIX sockets; delivered "
                 "method/url/version/headers/body_length/remote_addr compared with the generator's abstract request and with the model",
-        "required_tags": ["unix:1", "unix:0", "n:3", "fam:vanishdata"],
+        "required_tags": ["unix:1", "unix:0", "n:3", "fam:vanishdata", "fam:long"],
         "partial": ["theorem: head round trip for every well-formed head (Props/C02)", "observed only: remote_addr equals the client's socket address on TCP and is absent on UNIX sockets"],
         "assumptions": CONN_ASSUMPTIONS,
     },
@@ -134,10 +134,11 @@ PROPS = {
         "partial": [], "assumptions": CONN_ASSUMPTIONS,
     },
     "C09": {
-        "batches": conn_batches([("c09", 500), ("c03", 100)], [("c09", 8000), ("c03", 2000), ("mixed", 2000)]),
+        "batches": lambda tier: conn_batches([("c09", 500), ("c03", 100), ("c10", 100)], [("c09", 8000), ("c03", 2000), ("mixed", 2000), ("c10", 600)])(tier)
+                   + ctl_batches("idle", 100, 3000, per=100)(tier),
         "replay_bin": "pristine", "need": ["seq", "heads", "bodies", "wire", "eof", "nohang"], "agr_need": ["seq", "heads", "bodies", "wire", "eof"],
         "rule": "framings x consumption prefixes (0, 1, len-1, len without EOF, len+1 with EOF, random) x ways of finishing (respond, drop, panic, into_writer) x following pipelined requests",
-        "required_tags": ["body:limited", "body:buffered", "body:chunked", "consumed:none", "consumed:some", "consumed:eof", "fin:drop", "fin:writer", "fin:respond", "zeroread:1", "size:huge"],
+        "required_tags": ["body:limited", "body:buffered", "body:chunked", "consumed:none", "consumed:some", "consumed:eof", "fin:drop", "fin:writer", "fin:respond", "zeroread:1", "size:huge", "fam:idle", "class:e505"],
         "partial": [], "assumptions": CONN_ASSUMPTIONS,
     },
     "C10": {
@@ -149,12 +150,12 @@ PROPS = {
         "partial": [], "assumptions": CONN_ASSUMPTIONS,
     },
     "C12": {
-        "batches": lambda tier: conn_batches([("c12", 500)], [("c12", 8000), ("mixed", 2000)])(tier) + ctl_batches("idle", 200, 4000, per=100)(tier),
+        "batches": lambda tier: conn_batches([("c12", 500), ("c10", 100), ("long", 3)], [("c12", 8000), ("mixed", 2000), ("c10", 600), ("long", 9)])(tier) + ctl_batches("idle", 200, 4000, per=100)(tier),
         "replay_bin": "pristine", "need": ["seq", "heads", "wire", "eof", "nohang"], "agr_need": ["seq", "heads", "wire", "eof"],
         "rule": "version {1.0,1.1} x Connection header {absent, close, keep-alive, upgrade, other tokens, lists (also keep-alive next to close / upgrade), letter case, substrings} "
                 "at every pipeline position, arbitrary bytes after the last request, client half-closing or keeping the connection open; idle: the same conversations on the "
                 "controlled build with 1 s .. 1 h of virtual silence between or inside requests and handlers that take 6..12 s",
-        "required_tags": ["mode:open", "mode:halfclose", "end:waiting", "end:closed", "fam:idle", "stall:1"],
+        "required_tags": ["mode:open", "mode:halfclose", "end:waiting", "end:closed", "fam:idle", "stall:1", "fam:long", "class:e417"],
         "partial": [], "assumptions": CONN_ASSUMPTIONS,
     },
     "C16": {
@@ -170,7 +171,7 @@ PROPS = {
         "replay_bin": "pristine", "need": ["wire", "bodies", "seq", "nohang", "hold"], "agr_need": ["wire", "bodies", "seq", "hold"],
         "rule": "Expect: 100-continue present/absent (letter case) x body length {0,1,10,1024,1025,3000} x Content-Length/chunked x programs {answer without reading, "
                 "as_reader once / several times, partial read, over-read} with a client that withholds the body until the server has sent something",
-        "required_tags": ["st:100", "hold:1", "hold:0"],
+        "required_tags": ["st:100", "hold:1", "hold:0", "lateask:1"],
         "partial": [], "assumptions": CONN_ASSUMPTIONS,
     },
     "C07": {
@@ -199,7 +200,7 @@ PROPS = {
     },
     "C08": {
         "batches": lambda tier: ctl_batches("pool", 1500, 30000)(tier) + ctl_batches("srvp", 300, 6000, per=150)(tier)
-                   + ctl_batches("vanish", 60, 1500, per=60)(tier) + ctl_batches("vanishdata", 60, 1500, per=60)(tier)
+                   + ctl_batches("vanish", 60, 1500, per=60)(tier) + ctl_batches("vanishdata", 60, 1500, per=60)(tier) + ctl_batches("midline", 60, 1500, per=60)(tier)
                    + [{"bin": "pristine", "args": ["srv", "burst", 12 if tier != "thorough" else 120], "name": "pristine bursts of keep-alive connections"}],
         "replay_bin": "controlled", "oracle_col": "C08", "agree_col": "aC08",
         # conn lines (vanish families): a client that resets at once must not stop the server from serving the others
@@ -207,19 +208,19 @@ PROPS = {
         "rule": "TaskPool of the generated copy under the deterministic scheduler: bursts of 1..40 tasks (gaps 0 / 10 us / 1 ms / 6 s, before or after the initial workers "
                 "went idle), tasks block on a gate that stays shut (keep-alive connections that never end) or end at once; random schedules; every run replayed on the Lean "
                 "LTS (dispatch branch, which worker starts which task); predicate: every dispatched task started although no task ended",
-        "required_tags": ["tasks:5", "tasks:gt16", "tasks:le4", "newthread:1", "queued:1", "presettle:0", "presettle:1", "srv:burst:5", "srv:burst:16", "srv:burst:200", "srv:held", "srvpool:1", "fam:vanish", "fam:vanishdata", "spuriouswake:1", "preempt:1"],
+        "required_tags": ["tasks:5", "tasks:gt16", "tasks:le4", "newthread:1", "queued:1", "presettle:0", "presettle:1", "srv:burst:5", "srv:burst:16", "srv:burst:200", "srv:held", "srvpool:1", "fam:vanish", "fam:vanishdata", "fam:midline", "spuriouswake:1", "preempt:1"],
         "partial": ["theorem: every queued task is claimed by a woken worker (for all burst patterns and schedules); conservation and at-most-once start",
                     "whole-server isolation over real sockets (N simultaneous keep-alive connections) is sampled by the pristine burst batch"],
         "assumptions": CTL_ASSUMPTIONS,
     },
     "C20": {
-        "batches": lambda tier: ctl_batches("pool", 1500, 30000)(tier) + ctl_batches("srvp", 300, 6000, per=150)(tier) + [
+        "batches": lambda tier: ctl_batches("pool", 1500, 30000)(tier) + ctl_batches("srvp", 300, 6000, per=150)(tier) + ctl_batches("backlog", 40, 1000, per=40)(tier) + [
             {"bin": "pristine", "args": ["srv", "drop", 6 if tier != "thorough" else 60], "name": "pristine server drop (tcp/unix)"},
             {"bin": "pristine", "args": ["srv", "reclaim", 5], "name": "pristine thread reclamation, burst of 5"},
             {"bin": "pristine", "args": ["srv", "reclaim", 40], "name": "pristine thread reclamation, burst of 40"}],
         "replay_bin": "controlled", "oracle_col": "C20", "agree_col": "aC20",
         "rule": "same pool scenarios continued: gates opened, virtual time advanced past the idle period, live worker threads counted; then the pool is dropped and time advanced again",
-        "required_tags": ["timeoutwake:1", "burstlive:gt4", "burstlive:le4", "trickle:1", "srv:drop-tcp", "srv:drop-unix", "srv:drop-unix-dead", "srv:drop-queued", "srv:reclaim:40", "srvpool:1"],
+        "required_tags": ["timeoutwake:1", "burstlive:gt4", "burstlive:le4", "trickle:1", "srv:drop-tcp", "srv:drop-unix", "srv:drop-unix-dead", "srv:drop-queued", "srv:reclaim:40", "srvpool:1", "srv:backlog:gt8", "srv:backlog:le8"],
         "partial": ["theorem: at most MIN_THREADS untimed waiters / idle pool at baseline / retirement strands no task / accept loop stops after at most one more accept / handed-out requests stay answerable",
                     "observed only: connect() refused after drop, UNIX socket path removed, real thread counts (/proc/self/task)"],
         "assumptions": CTL_ASSUMPTIONS,
@@ -258,12 +259,12 @@ PROPS = {
         "partial": [], "assumptions": CTL_ASSUMPTIONS,
     },
     "C13": {
-        "batches": ctl_batches("seg", 48, 1800, per=4),
+        "batches": lambda tier: ctl_batches("seg", 48, 1800, per=4)(tier) + ctl_batches("idle", 100, 3000, per=100)(tier),
         "replay_bin": "controlled", "need": ["same", "nohang", "noabort"], "need_intent": False, "agr_need": ["heads", "bodies", "seq", "wire", "eof"],
         "rule": "for each conversation of a generated corpus (all framing kinds, malformed classes, upgrade, Expect): unsplit, EVERY single split point (conversations <= 260 bytes), "
                 "one byte at a time, random 2..8-way splits, the 1 KiB buffer boundaries; the in-memory socket returns exactly one written segment per read; metamorphic "
                 "comparison with the unsplit run and comparison of every run with the flat model",
-        "required_tags": ["fam:split", "fam:unsplit", "body:chunked", "body:limited", "body:buffered", "class:e400"],
+        "required_tags": ["fam:split", "fam:unsplit", "fam:idle", "body:chunked", "body:limited", "body:buffered", "class:e400"],
         "partial": [], "assumptions": CTL_ASSUMPTIONS,
     },
     "C14": {
